@@ -68,6 +68,9 @@ def _handle(ctx, f, oc):
         return (src(par.optional_vars) if par.optional_vars is not None else None), True, None
     if isinstance(par, (ast.Assign, ast.AnnAssign)):
         tgt = par.targets[0] if isinstance(par, ast.Assign) else par.target
+        if isinstance(tgt, ast.Name) and any(isinstance(w, ast.With) and any(isinstance(it.context_expr, ast.Name) and it.context_expr.id == tgt.id for it in w.items)
+                                             for w in walk_local(f)):
+            return tgt.id, True, None          # h = open(...); with h: ...   - closed by the with block
         if isinstance(tgt, ast.Name):
             g = ctx.cfg(f)
             an = [n.id for n in g.nodes if n.ast is par and g.reachable(n.id)]
@@ -243,8 +246,13 @@ def _s_save(ctx, S):
               and isinstance(n.targets[0], ast.Tuple) and len(n.targets[0].elts) == 2]
     ctx.need(unpack, "finalname, filename = self._getFilename(...) in save")
     FINAL, TEMP = (src(e) for e in unpack[0].targets[0].elts)
+    sdefs = local_defs(fs, track_mutation=False)
+
+    def same(e, name):
+        """e denotes the value unpacked as ``name`` (directly or through local aliases)"""
+        return src(e) == name or rsrc(e, sdefs) == rsrc(ast.Name(id=name, ctx=ast.Load()), sdefs)
     saves = node_calls(gs, lambda c: call_name(c) == "self._saveTemp")
-    ctx.check(len(saves) == 1 and src(saves[0][1].args[0]) == TEMP if saves else False, "replace/write-only-to-temporary", ctx.construct(q, "self._saveTemp(<temporary>, dumpFunc)"),
+    ctx.check(len(saves) == 1 and same(saves[0][1].args[0], TEMP) if saves else False, "replace/write-only-to-temporary", ctx.construct(q, "self._saveTemp(<temporary>, dumpFunc)"),
               "save() dumps the application into something other than the temporary name: a crash while pickling leaves a truncated file under the final name")
     if not saves:
         return      # the violation above is the verdict
@@ -261,11 +269,11 @@ def _s_save(ctx, S):
     for n, c in renames:
         ctx.check(after_ok(n), "replace/rename-after-close", ctx.construct(q, "os.rename(<temporary>, <final>)"),
                   "save(): the rename can happen on a path on which the temporary was not completely written")
-        ctx.check([src(a) for a in c.args] == [TEMP, FINAL], "replace/rename-temp-over-final", ctx.construct(q, "os.rename(<temporary>, <final>)"),
+        ctx.check(len(c.args) == 2 and same(c.args[0], TEMP) and same(c.args[1], FINAL), "replace/rename-temp-over-final", ctx.construct(q, "os.rename(<temporary>, <final>)"),
                   f"save(): the rename is not (temporary -> final): {src(c)}")
     for n, c in removes:
         guards = [src(t) for t, lab in edge_asserts(gs, n) if lab == "T"]
-        ctx.check(src(c.args[0]) == FINAL and any(t in ("runtime.platformType == 'win32'", "platform.isWindows()", "runtime.platform.isWindows()") for t in guards),
+        ctx.check(same(c.args[0], FINAL) and any(t in ("runtime.platformType == 'win32'", "platform.isWindows()", "runtime.platform.isWindows()") for t in guards),
                   "replace/final-removed-only-on-windows", ctx.construct(q, f"{call_name(c)}(<final>)"),
                   "save(): the final file is removed outside the win32 branch: a crash before the rename leaves no saved application at all")
         ctx.check(after_ok(n), "replace/final-removed-only-after-write", ctx.construct(q, f"{call_name(c)}(<final>)"),
@@ -380,6 +388,26 @@ def _parts(e):
             elif isinstance(v, ast.FormattedValue):
                 out.append(("v", src(v.value)))
         return out
+    if isinstance(e, ast.Call) and isinstance(e.func, ast.Attribute) and e.func.attr == "format" and isinstance(e.func.value, ast.Constant) \
+            and isinstance(e.func.value.value, str) and not e.keywords:
+        import string
+        out, n_auto = [], 0
+        try:
+            for lit, field, spec, conv in string.Formatter().parse(e.func.value.value):
+                if lit:
+                    out.append(("c", lit))
+                if field is None:
+                    continue
+                if spec or conv:
+                    return None
+                idx = n_auto if field == "" else (int(field) if field.isdigit() else None)
+                if idx is None or idx >= len(e.args):
+                    return None
+                n_auto += 1 if field == "" else 0
+                out.append(("v", src(e.args[idx])))
+        except ValueError:
+            return None
+        return out
     if isinstance(e, ast.BinOp) and isinstance(e.op, ast.Add):
         l, r = _parts(e.left), _parts(e.right)
         return None if l is None or r is None else l + r
@@ -458,6 +486,10 @@ SILENT = [
            more=[(SOB, "    def _saveTemp(self, filename, dumpFunc):", "    def _publish(self, tmp, final):\n        if runtime.platformType == \"win32\":\n            if os.path.isfile(final):\n                os.remove(final)\n        os.rename(tmp, final)\n\n    def _saveTemp(self, filename, dumpFunc):")]),
     Silent("sob-dump-failure-cleans-up-and-reraises", SOB, "        with open(filename, \"wb\") as f:\n            dumpFunc(self.original, f)",
            "        with open(filename, \"wb\") as f:\n            try:\n                dumpFunc(self.original, f)\n            except BaseException:\n                log.msg(\"could not save \" + self.name)\n                raise"),
+    Silent("sob-names-by-str-format-and-aliases", SOB, "            filename = f\"{self.name}-2.{ext}\"\n            finalname = f\"{self.name}.{ext}\"\n", "            filename = \"{}-2.{}\".format(self.name, ext)\n            finalname = \"{}.{}\".format(self.name, ext)\n",
+           more=[(SOB, "        self._saveTemp(filename, dumpFunc)\n", "        scratch, target = filename, finalname\n        self._saveTemp(scratch, dumpFunc)\n"),
+                 (SOB, "        os.rename(filename, finalname)\n", "        os.rename(scratch, target)\n")]),
+    Silent("sob-handle-opened-then-with", SOB, "        with open(filename, \"wb\") as f:\n            dumpFunc(self.original, f)", "        out = open(filename, \"wb\")\n        with out:\n            dumpFunc(self.original, out)"),
     Silent("os-replace", SOB, "        os.rename(filename, finalname)\n", "        os.replace(filename, finalname)\n"),
     Silent("sob-nested-platform-test", SOB, "        if runtime.platformType == \"win32\" and os.path.isfile(finalname):\n            os.remove(finalname)\n",
            "        if runtime.platformType == \"win32\":\n            if os.path.isfile(finalname):\n                os.remove(finalname)\n"),
